@@ -41,6 +41,35 @@ func (monC06) recoveryGating(x *Exec) {
 			continue
 		}
 		oi := x.W.Objs[e.Path]
+		if oi == nil {
+			continue
+		}
+		if cv0 := crashView(x, oi.Plan); cv0 != nil {
+			// a scope whose bypass checks had all durably succeeded before the crash stays bypassed: nothing of it, neither
+			// another check group nor a sequence action, is invoked by the restarted process
+			for _, scope := range x.scopes() {
+				if !inScope(oi, scope) {
+					continue
+				}
+				if by, _, _, _, _ := x.scopeChecks(scope); by == nil {
+					continue
+				}
+				bo := cv0.Objs[scope+"/By"]
+				if bo == nil || bo.Status != workflow.Completed {
+					continue
+				}
+				allDone := true
+				for _, a := range x.groupActions(scope + "/By") {
+					if ao := cv0.Objs[a.Path]; ao == nil || ao.Status != workflow.Completed {
+						allDone = false
+					}
+				}
+				if allDone {
+					x.Report(&Violation{Property: "C06", Rule: "invoked-although-bypassed", Signature: "bypass-across-crash",
+						Msg: fmt.Sprintf("recovery invoked %s although every bypass check of %s had durably succeeded before the crash", e.Path, scope)})
+				}
+			}
+		}
 		if !isSeqAction(oi) {
 			continue
 		}
